@@ -54,6 +54,8 @@ pub const CONTAINER_KINDS: &[&str] = &[
     "reorder_fields",
     "attacker_block_keep_proof",
     "attacker_block_attacker_proof",
+    "holder_forged_third_party_v0",
+    "holder_forged_third_party_v1",
     "byte_flip",
     "byte_insert",
     "byte_delete",
@@ -425,6 +427,53 @@ pub fn mutate_container(kind: &str, t0: &WToken, donor: &WToken, attacker: &RSec
             };
         }
         "reorder_fields" => return Some(t.encode_reordered()),
+        "holder_forged_third_party_v0" | "holder_forged_third_party_v1" => {
+            // the legitimate holder of an unsealed token (who knows the proof secret) appends a
+            // correctly chained block that claims to come from a third party: the external
+            // signature is made up (or made by somebody else), so the attribution is forged
+            let WProof::Secret(secret) = &t0.proof else { return None };
+            let lastb = t0.all_blocks().last().unwrap().clone();
+            let holder = RSecret::from_bytes(lastb.next_key.algorithm, secret).ok()?;
+            let next = attacker.clone();
+            let payload = t0.authority.block.clone();
+            // the victim: the key of a third-party block of the token or of the donor, else the
+            // root of the donor
+            let victim = t0
+                .all_blocks()
+                .iter()
+                .chain(donor.all_blocks().iter())
+                .filter_map(|b| b.external.as_ref().map(|e| e.public_key.clone()))
+                .next()
+                .unwrap_or_else(|| donor.authority.next_key.clone());
+            let ext_sig = match tp.pick(3) {
+                0 => vec![0x42u8; 64],
+                1 => attacker.sign(&payload_external_v1(&payload, &lastb.signature, 1)),
+                _ => {
+                    // legacy layout, signed by the attacker
+                    let mut m = payload.clone();
+                    m.extend_from_slice(&(lastb.next_key.algorithm as i32).to_le_bytes());
+                    m.extend_from_slice(&lastb.next_key.key);
+                    attacker.sign(&m)
+                }
+            };
+            let v1 = kind.ends_with("v1");
+            let to_sign = if v1 {
+                payload_v1(&payload, &next.public(), Some(&lastb.signature), Some(&ext_sig), 1)
+            } else {
+                payload_v0(&payload, &next.public(), Some(&ext_sig))
+            };
+            t.blocks.push(WBlock {
+                block: payload,
+                next_key: next.public().to_wire(),
+                signature: holder.sign(&to_sign),
+                external: Some(WExt {
+                    signature: ext_sig,
+                    public_key: victim,
+                }),
+                version: if v1 { Some(1) } else { None },
+            });
+            t.proof = WProof::Secret(next.bytes());
+        }
         "attacker_block_keep_proof" | "attacker_block_attacker_proof" => {
             // graft: a new block signed by an attacker key (not by the token's next secret)
             let last = t0.all_blocks().last().unwrap().signature.clone();
